@@ -232,7 +232,9 @@ def case_readtext(ctx, inp):
     with U.files(inp.get("fs", "mem"), [data]) as paths:
         for bs in [None] + list(inp["bss"]):
             try:
-                results[bs] = _read_text(paths[0], blocksize=bs, linedelimiter=delim)
+                # every other integer blocksize is also given in its string form ("7B")
+                arg = f"{bs}B" if (bs is not None and inp.get("strbs") and bs % 2) else bs
+                results[bs] = _read_text(paths[0], blocksize=arg, linedelimiter=delim)
             except Exception as e:  # the statement allows no exception for any content / blocksize
                 ctx.fail(f"read_text raised {type(e).__name__}: {e}", observed=[bs])
                 return
@@ -445,7 +447,7 @@ def generate(ctx):
             if not _valid_utf8(bytes(data)):
                 continue
         yield "readtext", {"data": data, "delim": d, "bss": gen_blocksizes(rng, len(data)),
-                           "fs": "tmp" if rng.random() < 0.25 else "mem"}
+                           "fs": "tmp" if rng.random() < 0.25 else "mem", "strbs": rng.random() < 0.3}
     for _ in range(ctx.n(12, 150)):
         d = rng.choice([None, list(rng.choice(DELIMS))])
         data = gen_data(rng, d or b"\n")
